@@ -29,6 +29,9 @@ def check(run, model, tier):
     run.rule('HSM-CONTENT.O8-offer', 'the n-th offer of the event goes to depth n of the active chain (current state, parent, ...); the EMPTY re-ask goes to the state that just declined')
     cc = hsmrules.record_content_obligations(run, model, 'dispatch', cursor_at_entry=False, kinds={'O8-offer'})
     run.floor('offer obligations in dispatch (event offer + guard fallback)', cc['O8-offer'], 2)
+    run.rule('REG.per-instance', 'the callback / parent registries (and every other container the chart classes fill through self) belong to the instance, not to the class')
+    from sa import ident as _ident
+    _ident.check_per_instance_state(run, model, 'REG.per-instance', ['HsmEventProcessor', 'InstrumentedHsmEventProcessor', 'HsmWithQueues', 'ActiveObject', 'Factory'])
     hsmrules.outcome_rules(run, model)
     hsmrules.cursor_invariant(run, model, ['init', 'dispatch', 'is_in', 'child_state'])
     n = hsmrules.signal_sets(run, model, ['dispatch'])
